@@ -873,6 +873,57 @@ def h_rib_grouped(ctx, tier, famname, alen):
     return ['ok', len(out)]
 
 
+WITHDRAW_TEXTS = [  # (section of Configuration.partial, text, afi, safi, rd expected, prefix bits, prefix octets)
+    ('ipv4', 'nlri-mpls 10.0.0.0/24', 1, 4, None, 24, bytes([10, 0, 0])),
+    ('ipv4', 'nlri-mpls 10.0.0.0/24 label 100', 1, 4, None, 24, bytes([10, 0, 0])),
+    ('ipv4', 'mpls-vpn 10.0.0.0/24 rd 65000:1', 1, 128, bytes([0, 0, 0xFD, 0xE8, 0, 0, 0, 1]), 24, bytes([10, 0, 0])),
+    ('ipv4', 'mpls-vpn 10.0.0.0/24 rd 65000:1 label 100', 1, 128, bytes([0, 0, 0xFD, 0xE8, 0, 0, 0, 1]), 24, bytes([10, 0, 0])),
+    ('ipv6', 'mpls-vpn 2001:db8::/32 rd 65000:1', 2, 128, bytes([0, 0, 0xFD, 0xE8, 0, 0, 0, 1]), 32, bytes.fromhex('20010db8')),
+]
+
+
+def h_withdraw_labelled(ctx):
+    """`withdraw ipv4 nlri-mpls <prefix>` / `withdraw ipv4 mpls-vpn <prefix> rd <rd>` (the API lets the operator leave the label
+    out: the route to withdraw is named by its prefix, and RD).  What is sent is a withdrawn labelled NLRI as RFC 8277 2.4 lays
+    it out - length, a 3-octet label field, [RD,] prefix - which names exactly the prefix (and RD) written."""
+    from exabgp.configuration.setup import create_minimal_configuration
+    section, text, afi, safi, rd, bits, prefix = WITHDRAW_TEXTS[ctx.choice('text', len(WITHDRAW_TEXTS))]
+    famname = {(1, 4): 'ipv4 nlri-mpls', (1, 128): 'ipv4 mpls-vpn', (2, 128): 'ipv6 mpls-vpn'}[(afi, safi)]
+    neg = K.session('out', local_as=65000, peer_as=65001, families=(famname,))
+    cfg = create_minimal_configuration(families=famname)
+    cfg.static.clear()
+    ok = cfg.partial(section, text, 'withdraw')
+    info = {'text': 'withdraw %s %s' % (section, text)}
+    if not ctx.check('accepted', bool(ok), sig='C01:withdraw-labelled:refused', info=dict(info, error=str(cfg.error)[-200:])):
+        return ['refused']
+    cfg.scope.to_context()
+    routes = cfg.scope.pop_routes()
+    ctx.cover('with-label' if 'label' in text else 'without-label')
+    d = decider(ctx)
+    out = []
+    for route in routes:
+        out += [bytes(m) for m in UpdateCollection([], [route.nlri], route.attributes).messages(neg)]
+    ctx.check('something-sent', len(out) == 1, sig='C01:withdraw-labelled:message-count', info=dict(info, messages=len(out)))
+    for msg in out:
+        withdrawn, attrs, nlri = O.split(msg[19:], d)
+        tlvs = O.walk(attrs, d)
+        un = [v for f, c, v in tlvs if c == O.MP_UNREACH]
+        if not ctx.check('mp-unreach-present', len(un) == 1 and not nlri and not withdrawn, sig='C01:withdraw-labelled:not-in-mp-unreach', info=dict(info, wire=msg.hex())):
+            continue
+        a, s_, data = O.mp_unreach(un[0], d)
+        ctx.check('family', (a, s_) == (afi, safi), sig='C01:withdraw-labelled:family', info=dict(info, got=[a, s_]))
+        try:
+            got = O.labelled_withdrawals(data, 32 if afi == 1 else 128, False, d, rd=rd is not None)
+        except O.Malformed as bad:
+            ctx.check('rfc-8277-layout', False, sig='C01:withdraw-labelled:%s' % bad.what, info=dict(info, nlri=bytes(data).hex()))
+            continue
+        ok = len(got) == 1 and got[0][3] == bits and bytes(got[0][4]) == prefix and (rd is None or bytes(got[0][2]) == rd)
+        ctx.check('names-the-prefix-written', ok, sig='C01:withdraw-labelled:names-another-route', info=dict(info, nlri=bytes(data).hex(),
+                  read_as=[(bytes(g[1]).hex(), None if g[2] is None else bytes(g[2]).hex(), g[3], bytes(g[4]).hex()) for g in got]))
+    ctx.cover('emitted')
+    return ['ok', len(out)]
+
+
 def h_cli_session(ctx):
     """`exabgp encode` / `validate` / `decode` do not open a session: configuration.check._negotiated() builds the two OPEN
     messages itself.  The session it hands to the encoder is the one the configuration describes (EBGP stays EBGP), and a route
@@ -940,6 +991,7 @@ def units(tier):
     for f, alen in (('ipv4-unicast', 16), ('ipv4-unicast', 4), ('ipv6-unicast', 16)):
         us.append(U('rib-grouped/%s/nh%d' % (f, alen), lambda ctx, f=f, n=alen: h_rib_grouped(ctx, tier, f, n),
                     must_cover=('emitted', 'same-next-hop', 'different-next-hops'), max_seconds=600, weight=80))
+    us.append(U('withdraw/labelled', h_withdraw_labelled, must_cover=('with-label', 'without-label', 'emitted'), weight=20))
     us.append(U('cli/encode-session', h_cli_session, must_cover=('ebgp', 'ibgp', 'emitted'), weight=20))
     for f in ('ipv4-unicast', 'ipv4-nlri-mpls', 'ipv4-mpls-vpn'):
         us.append(U('nh6/%s' % f, lambda ctx, f=f: h_nh6(ctx, tier, f), must_cover=('rfc8950', 'emitted'), weight=30))
